@@ -12,7 +12,8 @@
    every statement quantifies over the oracle [o]. *)
 From Coq Require Import String.
 From AV Require Import Lib.Base Gen.Consts Web.ContentCoding Web.ContentCodingProofs
-                       Web.Negotiate Web.NegotiateSpec Web.NegotiateProofs Web.WireCompose.
+                       Web.Negotiate Web.NegotiateSpec Web.NegotiateProofs Web.WireCompose
+                       Gen.CodingTables Web.CodingTie.
 (* the HTTP/1 response encoder model, its RFC 7230 reader and the HTTP/2 header preparation are
    the models of C02 / C08; their names are used qualified *)
 From AV Require H1.Encoder H1.RespSpec H1.EncoderProofs H2.Prepare.
@@ -255,6 +256,69 @@ Theorem C13_refuted_before_F29_h2 : forall now,
     (fst (Prepare.prepare_response now 200 (h2_headers (update_head Gzip head_announcing_6100) [])
             Prepare.SStream)) = [].
 Proof. exact before_F29_stale_length_on_h2. Qed.
+
+
+(* ---------------------------------------------------------------- tie to the source text
+   Gen/CodingTables.v is regenerated from encoder.rs / decoder.rs on every check
+   (tools/gen/content_coding.py): the disjuncts of should_encode, the short-cut arms of
+   `match body.size()`, the in-place comparisons, the statements of update_head in source order,
+   and the write call of ContentEncoder::write. *)
+
+(* Encoder::response is the generated short-cut arms followed by the generated should_encode, and
+   update_head is the generated statement list (insert Content-Encoding, append Vary, remove
+   Content-Length, no_chunking(false)) *)
+Theorem C13_decision_is_the_source_tables : forall (enc : coding) (h : head) (size : bsize),
+  encoder_response enc h size =
+  match empty_arm size with
+  | Some RNone => (BNone, h)
+  | Some REmpty => (BEmpty, h)
+  | None => if should_encode enc h && selectable enc
+            then (BEncode enc, fold_left (apply_stmt enc) UPDATE_HEAD_STMTS h) else (BPass, h)
+  end.
+Proof. exact encoder_response_tie. Qed.
+
+Theorem C13_update_head_is_the_source_statements : forall (c : coding) (h : head),
+  update_head c h = fold_left (apply_stmt c) UPDATE_HEAD_STMTS h.
+Proof. exact update_head_tie. Qed.
+
+(* the in-place / blocking-pool split of both machines is the source's comparison *)
+Theorem C13_in_place_tests_are_the_source :
+  forall (E : Type) (enc_write : E -> bytes -> E) (enc_take : E -> bytes * E) (enc_finish : E -> bytes)
+         (D : Type) (dec_feed : D -> bytes -> option (bytes * D)) (dec_eof : D -> option bytes)
+         (max_enc max_dec : N) (fuel : nat) (c : bytes) (rest : list bytes) (o : list bool),
+  (forall e,
+    enc_poll E enc_write enc_take enc_finish max_enc (S fuel)
+      {| e_body := c :: rest; e_encoder := Some e; e_fut := None; e_eof := false |} (true :: o) =
+    if in_place ENC_IN_PLACE_OP (lenN c) max_enc then
+      let '(chunk, e2) := enc_take (enc_write e c) in
+      let s2 := {| e_body := rest; e_encoder := Some e2; e_fut := None; e_eof := false |} in
+      if nonempty chunk then (Ready (Some chunk), s2, o)
+      else enc_poll E enc_write enc_take enc_finish max_enc fuel s2 o
+    else enc_poll E enc_write enc_take enc_finish max_enc fuel
+           {| e_body := rest; e_encoder := None; e_fut := Some (enc_write e c); e_eof := false |} o) /\
+  (forall d,
+    dec_poll D dec_feed dec_eof max_dec (S fuel)
+      {| d_in := c :: rest; d_decoder := Some d; d_fut := None; d_eof := false |} (true :: o) =
+    if in_place DEC_IN_PLACE_OP (lenN c) max_dec then
+      match dec_feed d c with
+      | None => (Ready (Some DErr), {| d_in := rest; d_decoder := None; d_fut := None; d_eof := false |}, o)
+      | Some (out, d2) =>
+          let s2 := {| d_in := rest; d_decoder := Some d2; d_fut := None; d_eof := false |} in
+          if nonempty out then (Ready (Some (DChunk out)), s2, o)
+          else dec_poll D dec_feed dec_eof max_dec fuel s2 o
+      end
+    else dec_poll D dec_feed dec_eof max_dec fuel
+           {| d_in := rest; d_decoder := None; d_fut := Some (dec_feed d c); d_eof := false |} o).
+Proof.
+  intros. split; intro.
+  - apply enc_in_place_tie.
+  - apply dec_in_place_tie.
+Qed.
+
+(* ContentEncoder::write hands the whole chunk to the codec in every arm (write_all): the source
+   fact behind the total [enc_write] of the model and the premise codec_law *)
+Theorem C13_encoder_write_consumes_all : ENCODER_WRITE_ALL_ARMS = 4%nat /\ ENCODER_WRITE_PARTIAL_ARMS = 0%nat.
+Proof. exact encoder_write_consumes_all. Qed.
 
 (* non-vacuity: a scripted codec satisfying nothing in particular still runs the machine; a
    negotiation with q-values; an encoded and a passed-through decision *)
